@@ -37,6 +37,12 @@ func (c *Ctx) isFeeCall(e *Ex, recv, inputs string) bool {
 	if n, ok := rt.(*types.Named); !ok || n != c.V.CoreType {
 		return false
 	}
+	// the fee operation yields a number (a method that merely takes the inputs - a storage helper - is not it)
+	if res := f.Signature.Results(); res.Len() != 1 {
+		return false
+	} else if b, ok := res.At(0).Type().Underlying().(*types.Basic); !ok || b.Info()&types.IsInteger == 0 {
+		return false
+	}
 	return exprIs(e.Args[0], recv) && exprIs(e.Args[1], inputs)
 }
 
